@@ -45,11 +45,11 @@ FMT = ("f", 8)
 
 
 @st.composite
-def _case(draw, nr_max, min_pots=1, max_pots=4, defaults=False):
-    route = "potable" if defaults else draw(st.sampled_from(["api_class", "writePotentials", "potable", "potable", "main"]))
+def _case(draw, nr_max, min_pots=1, max_pots=4, defaults=False, route=None, repeated=False):
+    route = "potable" if defaults else (route or draw(st.sampled_from(["api_class", "writePotentials", "potable", "potable", "main"])))
     m = draw(gen.pair_model(max_pots, 2, pycallables=(route not in ("potable", "main")), min_pots=min_pots))
     cutoff, nr = draw(gen.grid_rc(nr_max, 2))        # nr = 2: the one-row table "N 1 R cutoff cutoff"
-    if route in ("api_class", "writePotentials") and len(m["pair"]) >= 2 and draw(st.integers(0, 3)) == 0:
+    if route in ("api_class", "writePotentials") and len(m["pair"]) >= 2 and (repeated or draw(st.integers(0, 3)) == 0):
         # the list is the caller's: it may name one pair of species twice (also the other way round); every entry
         # still gets its own block, in list order
         i, j = draw(st.permutations(list(range(len(m["pair"])))))[:2]
@@ -100,10 +100,14 @@ def strata(tier):
         return [("one", _case(60, 1, 1), 4), ("several", _case(60, 2, 4), 5), ("large", _case(400), 1),
                 ("root_on_grid", _special("root_on_grid"), 1), ("decay_tail", _special("decay_tail"), 1), ("growth", _special("growth"), 0.5), ("rewrite", _rewrite(), 1),
                 ("int_plateau", _special("int_plateau"), 0.6), ("single_row", _case(2, 1, 3), 0.3)] + [
+            ("repeated_pair:" + r, _case(60, 2, 4, route=r, repeated=True), 0.6) for r in ("api_class", "writePotentials")] + [
+            ("route:writePotentials", _case(60, 1, 4, route="writePotentials"), 1)] + [
             ("defaults:" + g, _case(60, 1, 2, g), 0.4) for g in ("nr", "cutoff", "none")]
     return [("defaults:" + g, _case(60, 1, 2, g), 0.4) for g in ("nr", "cutoff", "none")] + [("rewrite", _rewrite(), 1), ("one", _case(60, 1, 1), 3), ("several", _case(60, 2, 4), 3), ("medium", _case(400), 3),
             ("large", _case(5000, 1, 2), 1), ("root_on_grid", _special("root_on_grid"), 1),
-            ("decay_tail", _special("decay_tail"), 1), ("growth", _special("growth"), 0.5), ("int_plateau", _special("int_plateau"), 0.6), ("single_row", _case(2, 1, 3), 0.3)]
+            ("decay_tail", _special("decay_tail"), 1), ("growth", _special("growth"), 0.5), ("int_plateau", _special("int_plateau"), 0.6), ("single_row", _case(2, 1, 3), 0.3)] + [
+        ("repeated_pair:" + r, _case(60, 2, 4, route=r, repeated=True), 0.6) for r in ("api_class", "writePotentials")] + [
+        ("route:writePotentials", _case(60, 1, 4, route="writePotentials"), 1)]
 
 
 def budget(tier):
